@@ -11,7 +11,7 @@ import (
 func init() {
 	register(&Check{
 		ID: "C09", Level: "exploration", QuickSecs: 170, ThoroughSecs: 1500,
-		Rule:        "grammars S <- body ; A <- ... ; B <- ... where body ranges over all expressions (nested choices and sequences allowed) over {'a','b',\"ab\",'a'i,[ab],[^a],[^b],[b]i,.,A,B} x {?,*,+,&,!} up to N nodes (4; thorough adds every 11th 5-node body), A and B over the leaf-rule bodies {'a', \"ab\", [ab], 'a' 'b', 'a'/'b', [^a], x:'a'{act}, 'b'i}; every single label+action decoration of the body; a two-site family (one leaf rule - class with range, class, literal - inlined at two places next to DIFFERENT neighbours the optimizer merges it with, 4 shapes, inputs over {a,b,c}); a same-name label family (labelled leaf rule inlined next to equally named labels of the enclosing rule, 6 shapes); a wide-choice family (5 alternatives: a mergeable pair at every position among unmergeable ones); a recovery family (leaf rules referenced inside and outside recovery operators and throws, 6 shapes x 4 leaf rules); a class merge family ((X1 / X2 [/ X3])+ for every ordered pair - thorough: triple - of 11 mergeable terminals: classes with chars, overlapping ranges sharing a bound, duplicates, i, ^, one-rune literals, a leaf rule; inputs over {a,b,c}); a rule graph family (EVERY reference graph over the rules S, A, B, D whose bodies are a leaf, a chain \"c\" X or a recursive choice \"a\" X / \"b\": dead rules referring to live ones, shared recursive rules; x the alternate-entrypoint sets {}, {A}, {D}, {A,B}; quick: a systematic third plus every graph with two non-leaf rules); every subset of {A,B} as -alternate-entrypoints and every usable entrypoint at run time; all inputs over {a,b} up to L=3 (4). Unoptimized build vs -optimize-grammar build (real vs real) and both vs the reference: same success, same consumed prefix, same action invocations (id, pos, text, flat label values) in the same order, same flat value (regrouping of action-less structure is invisible, action-made values are not). Non-trivial = the optimizer changed the emitted grammar (expression count differs) and the input is matched or backtracks.",
+		Rule:        "grammars S <- body ; A <- ... ; B <- ... where body ranges over all expressions (nested choices and sequences allowed) over {'a','b',\"ab\",'a'i,[ab],[^a],[^b],[b]i,.,A,B} x {?,*,+,&,!} up to N nodes (4; thorough adds every 11th 5-node body), A and B over the leaf-rule bodies {'a', \"ab\", [ab], 'a' 'b', 'a'/'b', [^a], x:'a'{act}, 'b'i}; every single label+action decoration of the body; a two-site family (one leaf rule - class with range, class, literal - inlined at two places next to DIFFERENT neighbours the optimizer merges it with, 4 shapes, inputs over {a,b,c}); a same-name label family (labelled leaf rule inlined next to equally named labels of the enclosing rule, 6 shapes); a wide-choice family (5 alternatives: a mergeable pair at every position among unmergeable ones); a recovery family (leaf rules referenced inside and outside recovery operators and throws, 6 shapes x 4 leaf rules); a byte literal family (2 or 3 adjacent one-byte literals taken from multi-byte UTF-8 sequences, AllowInvalidUTF8, inputs over those bytes up to 3); a class merge family ((X1 / X2 [/ X3])+ for every ordered pair - thorough: triple - of 11 mergeable terminals: classes with chars, overlapping ranges sharing a bound, duplicates, i, ^, one-rune literals, a leaf rule; inputs over {a,b,c}); a rule graph family (EVERY reference graph over the rules S, A, B, D whose bodies are a leaf, a chain \"c\" X or a recursive choice \"a\" X / \"b\": dead rules referring to live ones, shared recursive rules; x the alternate-entrypoint sets {}, {A}, {D}, {A,B}; quick: a systematic third plus every graph with two non-leaf rules); every subset of {A,B} as -alternate-entrypoints and every usable entrypoint at run time; all inputs over {a,b} up to L=3 (4). Unoptimized build vs -optimize-grammar build (real vs real) and both vs the reference: same success, same consumed prefix, same action invocations (id, pos, text, flat label values) in the same order, same flat value (regrouping of action-less structure is invisible, action-made values are not). Non-trivial = the optimizer changed the emitted grammar (expression count differs) and the input is matched or backtracks.",
 		Assumptions: []string{"E1 loader", "flat value rendering: concatenated matched bytes, action-made values kept"},
 		Run:         runC09,
 	})
@@ -34,6 +34,7 @@ func runC09(c *ShardCtx) {
 	en := peg.NewEnumerator(peg.Alphabet{Leaves: leaves, Unary: allUnary, Seq: true, Choice: true, MaxArity: 3, NestSame: true})
 	leafRules := []*peg.Expr{peg.Lit("a"), peg.Lit("ab"), peg.Cls(false, false, "a", "b"), peg.Seq(peg.Lit("a"), peg.Lit("b")), peg.Choice(peg.Lit("a"), peg.Lit("b")), peg.Cls(true, false, "a"), peg.Action(0, peg.Label("x", peg.Lit("a"))), peg.LitI("b")}
 	idx := 0
+	allowInvalid := false
 	one := func(g *peg.Grammar, alts [][]string) {
 		idx++
 		if !c.Mine(idx) {
@@ -58,7 +59,7 @@ func runC09(c *ShardCtx) {
 			}
 			for _, ep := range eps {
 				for _, in := range inputs {
-					o1 := rtapi.RunOpts{MaxExpr: 600, Entrypoint: ep}
+					o1 := rtapi.RunOpts{MaxExpr: 600, Entrypoint: ep, AllowInvalid: allowInvalid}
 					o2 := o1
 					ra := plain.Run(in, &o1, nil)
 					rb := opt.Run(in, &o2, nil)
@@ -152,6 +153,27 @@ func runC09(c *ShardCtx) {
 				return
 			}
 			one(g, [][]string{nil, {"B"}})
+		}
+		// byte literal family: adjacent literals that are single bytes of multi-byte UTF-8 sequences
+		// (written with \x escapes): concatenating them must not create a rune that none of them matches
+		{
+			bytesLits := []string{"\xe2", "\x82", "\xac", "\xc3", "\xa9", "a"}
+			saved2 := inputs
+			inputs = peg.Inputs([]string{"\xe2", "\x82", "\xac", "\xc3", "\xa9", "a"}, 3)
+			allowInvalid = true
+			for _, x := range bytesLits {
+				for _, y := range bytesLits {
+					if c.Expired("byte literal family") {
+						return
+					}
+					one(&peg.Grammar{Rules: []*peg.Rule{{Name: "S", Expr: peg.Seq(peg.Lit(x), peg.Lit(y))}}}, [][]string{nil})
+					for _, z := range bytesLits[:3] {
+						one(&peg.Grammar{Rules: []*peg.Rule{{Name: "S", Expr: peg.Seq(peg.Lit(x), peg.Lit(y), peg.Lit(z), peg.Not(peg.Any()))}}}, [][]string{nil})
+					}
+				}
+			}
+			allowInvalid = false
+			inputs = saved2
 		}
 		for _, g := range classMergeFamily(c.Thorough()) {
 			if c.Expired("class merge family") {
